@@ -329,9 +329,21 @@ _mtbl_compress_zlib(
 		compression_level = Z_BEST_COMPRESSION;
 	}
 
+	/*
+	 * zlib counts the bytes of one deflate() call in 32-bit fields
+	 * (avail_in, avail_out): refuse what does not fit instead of
+	 * silently truncating it.
+	 */
+	if (input_size > UINT_MAX)
+		return (mtbl_res_failure);
+
 	zret = deflateInit(&zs, compression_level);
 	assert(zret == Z_OK);
 	*output_size = deflateBound(&zs, input_size);
+	if (*output_size > UINT_MAX) {
+		deflateEnd(&zs);
+		return (mtbl_res_failure);
+	}
 	*output = my_malloc(*output_size);
 	zs.avail_in = input_size;
 	zs.next_in = (uint8_t *) input;
